@@ -57,6 +57,9 @@ def mk_rfi_sample(B, nrows_extra=1):
         for j in range(2):
             if not (lo[j] < hi[j]):
                 raise Reject()
+    if B.kind == 'real' and not (r > 0 and g > 0 and a1 > 0 and a0 >= 0 and lo[0] < hi[0]
+                                 and lo[1] < hi[1]):
+        raise Reject()
     rows = [[lo[0], lo[1]], [hi[0], hi[1]], [x2[0], x2[1]]]
     meta = dict(channels=list(NAMES), amplification_type=[(a0, a1), (0.0, 0.0)],
                 amplifier_gain=[None, g], resolution=[r, r], range=[[lo[0], hi[0]], [lo[1], hi[1]]])
@@ -65,7 +68,12 @@ def mk_rfi_sample(B, nrows_extra=1):
 
 def body_rfi_range(B, I):
     """Converted limits are exactly the converted events that sat at the old limits."""
-    if B.kind == 'real':
+    if B.kind == 'real' and not I.get('_direct'):
+        # first the realised counterexample itself (structural defects reproduce directly),
+        # then the lattice search for a last-bit witness
+        r0 = body_rfi_range(B, dict(I, _direct=True))
+        if r0 is not True and not (isinstance(r0, tuple) and r0[0]):
+            return r0
         return witness_search(B, 'range')
     d, rows, lo, hi = mk_rfi_sample(B)
     sel = [[0], [1], [0, 1], [1, 0]][ch.pick(I['sel'], 0, 4)]
@@ -87,7 +95,10 @@ def body_rfi_range(B, I):
 
 def body_rfi_commute(B, I):
     """high_low(default) before == after the conversion."""
-    if B.kind == 'real':
+    if B.kind == 'real' and not I.get('_direct'):
+        r0 = body_rfi_commute(B, dict(I, _direct=True))
+        if r0 is not True and not (isinstance(r0, tuple) and r0[0]):
+            return r0
         return witness_search(B, 'commute')
     d, rows, lo, hi = mk_rfi_sample(B)
     sel = [[0], [1], [0, 1]][ch.pick(I['sel'], 0, 3)]
@@ -178,17 +189,26 @@ def mk_mef_sample(B):
         for j in range(2):
             if not (lo[j] >= 0) or not (lo[j] < hi[j]) or not (x2[j] >= 0):
                 raise Reject()
+    if B.kind == 'real' and not (lo[0] >= 0 and lo[1] >= 0 and lo[0] < hi[0] and lo[1] < hi[1]
+                                 and x2[0] >= 0 and x2[1] >= 0):
+        raise Reject()
     rows = [[lo[0], lo[1]], [hi[0], hi[1]], [x2[0], x2[1]]]
     meta = dict(channels=list(NAMES), range=[[lo[0], hi[0]], [lo[1], hi[1]]])
     return B.sample(rows, 'float64', **meta), rows, lo, hi
 
 
 def body_mef(B, I):
-    if B.kind == 'real':
+    if B.kind == 'real' and not I.get('_direct'):
+        r0 = body_mef(B, dict(I, _direct=True))
+        if r0 is not True and not (isinstance(r0, tuple) and r0[0]):
+            return r0
         return witness_search_mef(B, I['what'])
     m, b, af = H.real('m'), H.real('b'), H.real('af')
-    if not (m > 0) or not (af >= 0):
-        raise Reject()
+    if B.kind == 'model':
+        if not (m > 0) or not (af >= 0):
+            raise Reject()
+    elif not (m > 0 and af >= 0):
+        return True
     d, rows, lo, hi = mk_mef_sample(B)
     sc = real_std_curve(B, m, b, af)
     sel = [[0], [1]][ch.pick(I['sel'], 0, 2)]
